@@ -348,8 +348,8 @@ func bindChanParams(fn *ssa.Function) func() {
 			return
 		}
 		cal := staticCallee(&call.Call)
-		if cal == nil || cal.Blocks == nil || cal.Parent() != nil || rootFn(origin(cal)).Pkg != rootFn(fn).Pkg {
-			return
+		if cal == nil || cal.Blocks == nil || cal.Parent() != nil || (rootFn(origin(cal)).Pkg != rootFn(fn).Pkg && !ctxBlockingHelper(curCtx, origin(cal))) {
+			return // (a module helper that waits under a context - chans.RecvContext(ctx, f.c) - is bound like an in-package one)
 		}
 		o := origin(cal)
 		for i, a := range call.Call.Args {
@@ -371,14 +371,14 @@ func bindChanParams(fn *ssa.Function) func() {
 // helperChanArgs: for a channel-typed parameter of an unexported top-level function, the (resolved) argument at every call site.
 func helperChanArgs(p *ssa.Parameter) []ssa.Value {
 	fn := p.Parent()
+	if b, ok := chanParamBinding[p]; ok {
+		return []ssa.Value{b}
+	}
 	if fn == nil || fn.Parent() != nil || token.IsExported(fn.Name()) || curCtx == nil || helperChanArgsBusy[p] {
 		return nil
 	}
 	if _, isChan := p.Type().Underlying().(*types.Chan); !isChan {
 		return nil
-	}
-	if b, ok := chanParamBinding[p]; ok {
-		return []ssa.Value{b}
 	}
 	helperChanArgsBusy[p] = true
 	defer delete(helperChanArgsBusy, p)
